@@ -102,28 +102,7 @@ def run(ctx):
                 ok = True
     ctx.ob("R-ORDER", "write_all-counts-buffer", ok, "bytes_written += buffer.len(); inner.write_all(buffer) returned (%s)" % how, b.where(),
            what="CountingWrite::write_all does not add buffer.len() for the buffer it delegates, or swallows the result")
-    # (c) the bypass in IncrementalDocument::save_internal
-    b = F.fn("IncrementalDocument::save_internal")
-    ok = False
-    how = "?"
-    byp = [c for c in b.calls if re.search(r"io::Write::write_all$", c.fn or "") and "inner" in b.oname(c.args[0], 3)]
-    sts = lib.stores_to_field(b, "bytes_written")
-    if len(byp) == 1 and len(sts) == 1:
-        t = b.rvname(sts[0][2]["rv"], 4)
-        how = t
-        m = re.match(r"^Add\((.*bytes_written),len\(&?\*?(\w+)\)\)$", t)
-        if m and b.oname(byp[0].args[1], 3).strip("&*") == m.group(2):
-            ok = True
-    ctx.ob("R-ORDER", "prefix-bypass-accounted", ok, "target.inner.write_all(prev) is paired with bytes_written += prev.len() (%s)" % how, b.where(),
-           what="the history prefix written through the inner sink is not accounted in bytes_written (all offsets of the update would be wrong)")
-    # `inner` is touched nowhere else
-    for p, bb in F.bodies.items():
-        acc = [x for x in lib.field_accesses(bb, "CountingWrite", "inner")]
-        if acc:
-            fn = F.canon_of(bb)
-            okw = fn in {"<CountingWrite as Write>::write", "<CountingWrite as Write>::write_all", "<CountingWrite as Write>::flush", "IncrementalDocument::save_internal"}
-            ctx.ob("R-WHO", "inner-access|%s" % fn, okw, "%s may reach the wrapped sink" % fn, bb.where(acc[0][2]),
-                   what="%s reaches the wrapped sink of CountingWrite directly, bypassing the byte counter" % fn)
+    counted_sink(ctx, F)
     # (d) save(): BufWriter finalisation is propagated and follows save_internal
     for name in ("Document::save", "IncrementalDocument::save"):
         b = F.fn(name)
@@ -180,6 +159,35 @@ def run(ctx):
     ctx.floor("R-WHO", "document mutations during save", nmut, 9)
     ctx.assumptions += ["Write::write_all and write_fmt of std retry Interrupted and loop over short writes (their documented contract)",
                         "max_id < u32::MAX (documents with fewer than 2^32 objects)"]
+
+
+def counted_sink(ctx, F):
+    """Every byte that reaches the sink is counted: offsets in the cross-reference data are read off the counter."""
+    # (c) the bypass in IncrementalDocument::save_internal
+    b = F.fn("IncrementalDocument::save_internal")
+    ok = False
+    how = "?"
+    byp = [c for c in b.calls if re.search(r"io::Write::write_all$", c.fn or "") and "inner" in b.oname(c.args[0], 3)]
+    sts = lib.stores_to_field(b, "bytes_written")
+    raw = [x for x in lib.field_accesses(b, "CountingWrite", "inner") if x[1] != "init"]
+    if len(byp) == 1 and len(sts) == 1:
+        t = b.rvname(sts[0][2]["rv"], 4)
+        how = t
+        m = re.match(r"^Add\((.*bytes_written),len\(&?\*?(\w+)\)\)$", t)
+        if m and b.oname(byp[0].args[1], 3).strip("&*") == m.group(2):
+            ok = True
+    ctx.ob("R-ORDER", "prefix-bypass-accounted", ok, "target.inner.write_all(prev) is paired with bytes_written += prev.len() (%s)" % how, b.where(),
+           what="the history prefix written through the inner sink is not accounted in bytes_written (all offsets of the update would be wrong)")
+    ctx.ob("R-WHO", "raw-sink-uses|IncrementalDocument::save_internal", len(raw) == len(byp), "%d use(s) of the wrapped sink, each the accounted write_all" % len(raw), b.where(raw[-1][2] if raw else None),
+           what="IncrementalDocument::save_internal reaches the wrapped sink %d time(s) but only %d of them are write_all calls paired with an update of bytes_written: bytes written past the counter shift every offset of the appended section and startxref" % (len(raw), len(byp)))
+    # `inner` is touched nowhere else
+    for p, bb in F.bodies.items():
+        acc = [x for x in lib.field_accesses(bb, "CountingWrite", "inner")]
+        if acc:
+            fn = F.canon_of(bb)
+            okw = fn in {"<CountingWrite as Write>::write", "<CountingWrite as Write>::write_all", "<CountingWrite as Write>::flush", "IncrementalDocument::save_internal"}
+            ctx.ob("R-WHO", "inner-access|%s" % fn, okw, "%s may reach the wrapped sink" % fn, bb.where(acc[0][2]),
+                   what="%s reaches the wrapped sink of CountingWrite directly, bypassing the byte counter" % fn)
 
 
 def short(c):
